@@ -46,7 +46,7 @@ pub fn literal<'a>() -> impl Parser<'a, &'a str, Literal, Err<'a>> + Clone {
     recursive(|literal| {
         let int = just("-")
             .or_not()
-            .then(text::int(10).from_str::<u64>().unwrapped())
+            .then(text::int(10).from_str::<u64>().try_map(super::number_or_error))
             .map(|(sign, val)| {
                 Literal::Int(if sign.is_some() {
                     -(val as i64)
@@ -156,9 +156,10 @@ pub fn parser<'a>() -> impl Parser<'a, &'a str, Dqe, Err<'a>> {
             .boxed();
 
         let mb_usize = text::int(10)
+            .from_str::<usize>()
+            .try_map(super::number_or_error)
             .or_not()
-            .padded()
-            .map(|v: Option<&str>| v.map(|v| v.parse::<usize>().unwrap()));
+            .padded();
 
         let slice_op = mb_usize
             .then_ignore(just("..").padded())
